@@ -51,7 +51,7 @@ _TNAME = {0: "plane", 1: "hfield", 2: "sphere", 3: "capsule", 4: "ellipsoid", 5:
 def strategy(tier):
   return st.fixed_dictionaries(
     dict(
-      scene=gen.scene_strategy(types=st.sampled_from(_MENUS), nmax=6 if tier == "thorough" else 5),
+      scene=gen.scene_strategy(types=st.sampled_from(_MENUS), nmax=6 if tier == "thorough" else 5, late_plane=st.sampled_from([False, False, True])),
       cone=st.sampled_from(["pyramidal", "elliptic"]),
       nativeccd=st.booleans(),
       multiccd=st.booleans(),
